@@ -28,7 +28,8 @@ ASSUMPTIONS = [
 
 SIGMA_P = ["~", "/", "0", "1", "+", "-", " ", "#", "a", "é", "_", "１"]
 LOOK = ["01", "00", "-0", "-1", "+1", "1_0", "1 ", "1e1", "1.0", "10", "12", "~0", "~1", "~01", "~2", "#a", "#0", "~a",
-        "a/b", "a~b", "%41", "%2F", "𝄞", "null", "true", "0x1", "٣", "1 0", "a b"]
+        "a/b", "a~b", "%41", "%2F", "𝄞", "null", "true", "0x1", "٣", "1 0", "a b",
+        "9007199254740991", "-9007199254740991", "1\n", "0\n", "-7\n", "a\n", "a\t", "\na"]
 
 
 def tokens(n):
@@ -189,8 +190,18 @@ def run_shard(shard, acc):
 
         t1 = tokens(1)
         seqs = [[]] + [[t] for t in t1] + [[a, b] for a in t1[:14] for b in t1[:14]]
-        ptrs = [(tuple(s), JSONPointer(rptr.encode(s))) for s in seqs]
-        alts = [(tuple(s), JSONPointer.from_parts(list(s))) for s in seqs]
+        def build(route, fn, ss):
+            out = []
+            for s_ in ss:
+                try:
+                    out.append((tuple(s_), fn(s_)))
+                except Exception as e:  # noqa: BLE001
+                    acc.violation("PAIRS", "refused." + route, {"left": list(s_), "right": list(s_)}, expected="a pointer",
+                                  observed="%s: %s" % (type(e).__name__, e))
+            return out
+
+        ptrs = build("parse", lambda s_: JSONPointer(rptr.encode(s_)), seqs)
+        alts = build("from_parts", lambda s_: JSONPointer.from_parts(list(s_)), seqs)
         for (ka, pa), (kb, pb) in itertools.product(ptrs, alts):
             eq = pa == pb
             acc.case("PAIRS", (ka, kb), outcome=eq, nontrivial=True)
@@ -201,7 +212,7 @@ def run_shard(shard, acc):
         # the token spaces contain string-prefix-related tokens ('1' vs '10', '~' vs '~0', 'a' vs 'a b') on purpose
         rel_seqs = [[]] + [[t] for t in t1] + [[a, b] for a in REL_TOKS for b in REL_TOKS] + \
                    [[a, b, c] for a in REL_TOKS[:6] for b in REL_TOKS[:6] for c in REL_TOKS[:6]]
-        rptrs = [(tuple(s), JSONPointer(rptr.encode(s))) for s in rel_seqs]
+        rptrs = build("parse", lambda s_: JSONPointer(rptr.encode(s_)), rel_seqs)
         for (ka, pa), (kb, pb) in itertools.product(rptrs, rptrs):
             want = len(kb) < len(ka) and ka[:len(kb)] == kb
             got = pa.is_relative_to(pb)
@@ -357,6 +368,11 @@ def check_case(sub, case, acc):
         from jsonpath import JSONPointer
 
         ka, kb = case["left"], case["right"]
+        try:
+            JSONPointer(rptr.encode(ka)), JSONPointer.from_parts(list(kb)), JSONPointer(rptr.encode(kb))
+        except Exception as e:  # noqa: BLE001
+            acc.violation("PAIRS", "refused.parse", case, expected="a pointer", observed="%s: %s" % (type(e).__name__, e))
+            return
         if v_kind(case) == "is_relative_to":
             pa, pb = JSONPointer(rptr.encode(ka)), JSONPointer(rptr.encode(kb))
             want = len(kb) < len(ka) and ka[:len(kb)] == kb
